@@ -18,6 +18,8 @@ func init() {
 			// a request or response cut inside the head must not complete the handshake
 			serverUpgraderRules(c, "C16")
 			dialerUpgradeRules(c, "C16")
+			// a control frame cut inside its payload must not be answered as if it were complete
+			handlerRules(c, "C16")
 		},
 	})
 }
